@@ -1327,6 +1327,8 @@ macro_rules! impl_binop_assign {
                         self.data[i].$method(IArray::get_int(rhs, i).unwrap_or(I1::ZERO));
                     }
                 }
+                // The right hand side may be longer than self: drop the bits beyond the length.
+                self.mod2n(self.length);
             }
         }
 
@@ -1348,6 +1350,8 @@ macro_rules! impl_binop_assign {
                 for i in 0..N {
                     self.data[i].$method(IArray::get_int(rhs, i).unwrap_or(I::ZERO));
                 }
+                // The right hand side may be longer than self: drop the bits beyond the length.
+                self.mod2n(self.length);
             }
         }
 
